@@ -36,3 +36,7 @@ def run(ctx, rep):
     ro = rep.rule("order", "tempo ticks strictly increasing (so g(t) is well defined)", floor=4)
     ra = rep.rule("accumulate", "tempo event construction", floor=2)
     T.check_accumulate(ra, ro)
+    rch = rep.rule("chain", "file -> lines (read().splitlines(), utf-8-sig) -> framing -> section route -> dispatcher -> builders: every link "
+                            "hands the lines on unchanged", floor=10)
+    from .chain import check_chain
+    check_chain(ctx, rch, "all", strict=False)
